@@ -14,25 +14,26 @@ import (
 // ---------------- client ids ----------------
 
 var quickClients = []clientID{
-	{"HelloGolang", tls.HelloGolang, true},
-	{"HelloChrome_120", tls.HelloChrome_120, true},
-	{"HelloFirefox_120", tls.HelloFirefox_120, true},
-	{"HelloChrome_112_PSK_Shuf", tls.HelloChrome_112_PSK_Shuf, false},
+	{name: "tls.Client", ech: true, plain: true}, // plain crypto/tls entry point: Conn.clientHandshake
+	{name: "HelloGolang", id: tls.HelloGolang, ech: true},
+	{name: "HelloChrome_120", id: tls.HelloChrome_120, ech: true},
+	{name: "HelloFirefox_120", id: tls.HelloFirefox_120, ech: true},
+	{name: "HelloChrome_112_PSK_Shuf", id: tls.HelloChrome_112_PSK_Shuf},
 }
 
 var moreClients = []clientID{
-	{"HelloChrome_133", tls.HelloChrome_133, true},
-	{"HelloChrome_131", tls.HelloChrome_131, true},
-	{"HelloChrome_120_PQ", tls.HelloChrome_120_PQ, true},
-	{"HelloChrome_100_PSK", tls.HelloChrome_100_PSK, false},
-	{"HelloChrome_115_PQ_PSK", tls.HelloChrome_115_PQ_PSK, false},
-	{"HelloChrome_106_Shuffle", tls.HelloChrome_106_Shuffle, false},
-	{"HelloFirefox_105", tls.HelloFirefox_105, false},
-	{"HelloIOS_14", tls.HelloIOS_14, false},
-	{"HelloSafari_16_0", tls.HelloSafari_16_0, false},
-	{"HelloEdge_106", tls.HelloEdge_106, false},
-	{"Hello360_11_0", tls.Hello360_11_0, false},
-	{"HelloQQ_11_1", tls.HelloQQ_11_1, false},
+	{name: "HelloChrome_133", id: tls.HelloChrome_133, ech: true},
+	{name: "HelloChrome_131", id: tls.HelloChrome_131, ech: true},
+	{name: "HelloChrome_120_PQ", id: tls.HelloChrome_120_PQ, ech: true},
+	{name: "HelloChrome_100_PSK", id: tls.HelloChrome_100_PSK},
+	{name: "HelloChrome_115_PQ_PSK", id: tls.HelloChrome_115_PQ_PSK},
+	{name: "HelloChrome_106_Shuffle", id: tls.HelloChrome_106_Shuffle},
+	{name: "HelloFirefox_105", id: tls.HelloFirefox_105},
+	{name: "HelloIOS_14", id: tls.HelloIOS_14},
+	{name: "HelloSafari_16_0", id: tls.HelloSafari_16_0},
+	{name: "HelloEdge_106", id: tls.HelloEdge_106},
+	{name: "Hello360_11_0", id: tls.Hello360_11_0},
+	{name: "HelloQQ_11_1", id: tls.HelloQQ_11_1},
 }
 
 // ---------------- the oracle, from the property text ----------------
@@ -107,6 +108,7 @@ func (e *env) coqRoots() string {
 	return fmt.Sprintf("[TRoot 1 %s %s]", vh.Z(e.p.caNB.Unix()), vh.Z(e.p.caNA.Unix()))
 }
 
+// Coq ids: root CAs are 1 (trusted) and 2 (untrusted); the intermediate of leaf kind k is 10+k.
 func coqLeaf(l *leaf) string {
 	var ns []string
 	for _, n := range l.cert.DNSNames {
@@ -116,7 +118,23 @@ func coqLeaf(l *leaf) string {
 	if !l.trusted {
 		issuer = 2
 	}
-	return fmt.Sprintf("(TCert %s %s %s %d)", vh.List(ns), vh.Z(l.cert.NotBefore.Unix()), vh.Z(l.cert.NotAfter.Unix()), issuer)
+	if len(l.inter) > 0 {
+		issuer = 10 + int(l.kind)
+	}
+	return fmt.Sprintf("(TCert %s %s %s %d 0)", vh.List(ns), vh.Z(l.cert.NotBefore.Unix()), vh.Z(l.cert.NotAfter.Unix()), issuer)
+}
+
+// coqChain: the chain as the server presents it, leaf first.
+func coqChain(l *leaf) string {
+	items := []string{coqLeaf(l)}
+	for _, ic := range l.inter {
+		issuer := 1
+		if !l.trusted {
+			issuer = 2
+		}
+		items = append(items, fmt.Sprintf("(TCert [] %s %s %d %d)", vh.Z(ic.NotBefore.Unix()), vh.Z(ic.NotAfter.Unix()), issuer, 10+int(l.kind)))
+	}
+	return vh.List(items)
 }
 
 func (e *env) coqCfg(cs cfgSpec) string {
@@ -151,7 +169,7 @@ func (e *env) judge(c *vh.Ctx, cs cfgSpec, lk leafKind, o obs) {
 	rejected := cs.ech != echNone && !o.echAccepted
 	in := map[string]any{"config": cs.key(), "leaf": lk.String(), "leaf_names": l.cert.DNSNames,
 		"leaf_not_before": l.cert.NotBefore, "leaf_not_after": l.cert.NotAfter, "trusted_issuer": l.trusted,
-		"client_time": cs.now(), "ServerName": nameS, "InsecureServerNameToVerify": cs.inv.value(), "ech_public_name": nameP}
+		"intermediates": interDesc(l), "client_time": cs.now(), "ServerName": nameS, "InsecureServerNameToVerify": cs.inv.value(), "ech_public_name": nameP}
 	if len(o.class) > 6 && o.class[:6] == "other:" {
 		// not a certificate outcome (I/O, an unrelated handshake failure): outside this property, but never silent
 		c.Count("unrelated-handshake-error")
@@ -191,7 +209,7 @@ func (e *env) judge(c *vh.Ctx, cs cfgSpec, lk leafKind, o obs) {
 		}
 	}
 	c.Count("outcome:" + o.class)
-	coq := fmt.Sprintf("(CFresh %s %s %s %s %s %d)", e.coqCfg(cs), vh.Str(nameP), vh.Bool(o.echAccepted), vh.Str(o.connName), coqLeaf(l), outcomeCode(o.class))
+	coq := fmt.Sprintf("(CFresh %s %s %s %s %s %d)", e.coqCfg(cs), vh.Str(nameP), vh.Bool(o.echAccepted), vh.Str(o.connName), coqChain(l), outcomeCode(o.class))
 	nontriv := !cs.skipVerify || rejected
 	c.Case("handshake", coq, cs.key()+"|"+lk.String(), nontriv, map[string]any{"config": cs.key(), "leaf": lk.String(), "outcome": o.class})
 }
@@ -273,9 +291,9 @@ func runC14(c *vh.Ctx) {
 	e.x509Cases(c)
 
 	// (1) the former witness of F-14 first, always: ECH rejected, correct client-facing server (leaf valid
-	//     for the public name only), default configuration, HelloGolang and one parrot.
+	//     for the public name only), default configuration; tls.Client, UClient(HelloGolang) and one parrot.
 	var jobs []*hsJob
-	for _, cl := range quickClients[:2] {
+	for _, cl := range quickClients[:3] {
 		jobs = append(jobs, &hsJob{cs: cfgSpec{cl: cl, vers: tls.VersionTLS13, ech: echReject}, lk: lP})
 	}
 	e.runJobs(jobs)
@@ -300,10 +318,11 @@ func runC14(c *vh.Ctx) {
 			}
 		}
 	} else {
-		// quick: the full matrix for HelloGolang, and a seeded sample of the other clients' matrices up to -n configurations
+		// quick: every ECH configuration (accepted and rejected) that verifies, for every ECH-capable entry point
+		// (tls.Client, UClient(HelloGolang), parrots), plus a seeded sample of the remaining matrix up to -n configurations
 		var keep, rest []cfgSpec
 		for _, cs := range cfgs {
-			if cs.cl.name == "HelloGolang" {
+			if cs.ech == echReject || (cs.ech == echAccept && !cs.skipVerify) {
 				keep = append(keep, cs)
 			} else {
 				rest = append(rest, cs)
@@ -372,6 +391,14 @@ func runC14(c *vh.Ctx) {
 	c.Extra["names"] = map[string]string{"ServerName": nameS, "InsecureServerNameToVerify(name)": nameO, "ech_public_name": nameP, "wrong": nameW}
 }
 
+func interDesc(l *leaf) []string {
+	var out []string
+	for _, ic := range l.inter {
+		out = append(out, fmt.Sprintf("%s (issuer %s, NotAfter %s)", ic.Subject.CommonName, ic.Issuer.CommonName, ic.NotAfter.Format(time.RFC3339)))
+	}
+	return out
+}
+
 func passList(pass map[leafKind]bool) []string {
 	var out []string
 	for lk := leafKind(0); lk < nLeaf; lk++ {
@@ -404,7 +431,7 @@ func (e *env) x509Cases(c *vh.Ctx) {
 		for _, n := range []string{"", nameS, nameO, nameP} {
 			for _, t := range ts {
 				ok := e.p.x509Verify(l, n, t) == nil
-				coq := fmt.Sprintf("(CX509 %s %s %s %s %s)", e.coqRoots(), coqLeaf(l), vh.Str(n), vh.Z(t.Unix()), vh.Bool(ok))
+				coq := fmt.Sprintf("(CX509 %s %s %s %s %s)", e.coqRoots(), coqChain(l), vh.Str(n), vh.Z(t.Unix()), vh.Bool(ok))
 				c.Case("x509", coq, fmt.Sprintf("%s|%s|%d", lk, n, t.Unix()), n != "", nil)
 			}
 		}
